@@ -181,6 +181,16 @@ Relay ==
   /\ clk' = clk + 1
   /\ UNCHANGED <<now, slot, met, cnt>>
 
+(* The dump of the cache is restored into the SAME cache, which is in use: every entry is replaced by a copy of itself  *)
+(* (key, value, expiry, usage counter travel with the dump), so nothing observable changes - in particular not the      *)
+(* number of entries a later cleanup cycle compares with CountSoftLimit.                                                *)
+RelaySelf ==
+  /\ reply' = Rep("n", NoVal, 0, Cardinality(Used(slot)))
+  /\ op' = Op("RelaySelf", "", NoVal, 0, FALSE)
+  /\ expSeen' = (expSeen \/ \E h \in Slots : slot[h] # None /\ slot[h].e # NoExp)
+  /\ clk' = clk + 1
+  /\ UNCHANGED <<now, slot, met, cnt>>
+
 (* Walk whose callback fails on the first entry: the walk stops, reports    *)
 (* the error and zero processed entries.                                    *)
 WalkStop ==
@@ -256,7 +266,7 @@ Next ==
   \/ \E k \in Keys, s \in BOOLEAN : Read(k, s)
   \/ \E k \in Keys : Load(k)
   \/ \E k \in Keys : Delete(k)
-  \/ ExpireAll \/ DeleteAll \/ LenOp \/ Walk \/ WalkStop \/ Tick \/ Relay
+  \/ ExpireAll \/ DeleteAll \/ LenOp \/ Walk \/ WalkStop \/ Tick \/ Relay \/ RelaySelf
   \/ \E b \in BOOLEAN : Cleanup(b)
 
 vars == <<now, slot, expSeen, clk, op, reply, met, cnt>>
@@ -292,7 +302,7 @@ MetricsOK ==
 
 (* C13: a relay changes nothing the API can observe.                         *)
 RelayExact ==
-  [][op'.name = "Relay" => slot' = slot /\ reply'.n = Cardinality(Used(slot))]_vars
+  [][op'.name \in {"Relay", "RelaySelf"} => slot' = slot /\ reply'.n = Cardinality(Used(slot))]_vars
 
 (* C11 as an action property: a janitor cycle without eviction removes      *)
 (* exactly the entries expired for DEA or longer; everything else survives. *)
